@@ -6,9 +6,11 @@ import multiprocessing
 from sa.config import World
 
 _WORLDS = {}
+DEFAULT_CONFIG = ["py3"]
 
 
-def world(config="py3"):
+def world(config=None):
+    config = config or DEFAULT_CONFIG[0]
     if config not in _WORLDS:
         _WORLDS[config] = World(config)
     return _WORLDS[config]
